@@ -1507,7 +1507,14 @@ class CrossSectionGroupManager(interfaces.Interface):
                 if b.getMicroSuffix() not in blockCollectionsByXsGroup:
                     b2 = copy.deepcopy(b)
                     missingBlueprintBlocks.append(b2)
-        return missingBlueprintBlocks
+        # The env group of a blueprint block is only brought up to date now. Test again afterwards, so that a
+        # blueprint block does not join (and change the average of) a group that is already represented.
+        self._updateEnvironmentGroups(missingBlueprintBlocks)
+        return [
+            b
+            for b in missingBlueprintBlocks
+            if b.getMicroSuffix() not in blockCollectionsByXsGroup
+        ]
 
     def makeCrossSectionGroups(self):
         """Make cross section groups for all blocks in reactor and unrepresented blocks from blueprints."""
